@@ -719,6 +719,9 @@ def run(ctx):
 
     n_d = define_vs_check(ctx)
     ctx.say(f"C33 layer D: {n_d} cases [{time.time() - t0:.1f}s]")
+    from checks import c33b
+    pcov = c33b.run_layer(ctx)
+    ctx.say(f"C33 layer P: {pcov['position_programs']} feature x position programs, {pcov['position_judged']} judged [{time.time() - t0:.1f}s]")
     u = unspecified(ctx)
     ctx.say(f"C33 layer U done [{time.time() - t0:.1f}s]")
 
@@ -755,6 +758,7 @@ def run(ctx):
         "gated_programs": sorted(PROGRAMS),
     }
     cov.update(u)
+    cov.update(pcov)
     if harness_bad and not ctx.violations:
         raise RuntimeError(f"harness: {harness_bad} pipeline checks crashed: {results}")
     return cov
@@ -762,6 +766,9 @@ def run(ctx):
 
 def replay(ctx, item):
     mode = item.get("mode")
+    if mode == "position":
+        from checks import c33b
+        return c33b.replay(ctx, item)
     if mode == "define":
         return replay_define(item)
     seq = tuple(item["seq"])
